@@ -229,6 +229,8 @@ struct Search {
     write_handle: thread::JoinHandle<()>,
     search_handle: thread::JoinHandle<SearchArtifact>,
     control: mpsc::Sender<searcher::ControlEvent>,
+    #[cfg(weechess_verif)]
+    verif_search: usize,
 }
 
 impl Search {
@@ -245,12 +247,21 @@ impl Search {
         let (search_handle, control, receiver) =
             searcher.analyze(state, rng_seed, evaluator, depth, previous_artifact);
 
+        #[cfg(weechess_verif)]
+        let verif_search = searcher::verif::last_search_id();
+
+        #[cfg(weechess_verif)]
+        searcher::verif::thread_event("M_Spawn", verif_search);
+
         {
             // Start a timer to stop the search after a certain amount of time
             let timer_stop = control.clone();
             let max_search_time = search_time.unwrap_or(DEFAULT_MAX_SEARCH_TIME);
             _ = thread::spawn(move || loop {
                 if start_time.elapsed().as_secs_f64() >= max_search_time {
+                    #[cfg(weechess_verif)]
+                    searcher::verif::thread_event("T_Fire", verif_search);
+
                     _ = timer_stop.send(searcher::ControlEvent::Stop);
                     break;
                 }
@@ -264,6 +275,9 @@ impl Search {
             while let Ok(event) = receiver.recv() {
                 match event {
                     searcher::StatusEvent::BestMove { line, evaluation } => {
+                        #[cfg(weechess_verif)]
+                        searcher::verif::thread_event("W_Recv", verif_search);
+
                         println!("info score cp {}", evaluation.cp());
                         println!("info pv {}", into_notation::<_, Lan>(&&line[..]));
                         best_line = line;
@@ -294,6 +308,12 @@ impl Search {
                 }
             }
 
+            #[cfg(weechess_verif)]
+            searcher::verif::thread_event(
+                if best_line.is_empty() { "W_End" } else { "W_EndBest" },
+                verif_search,
+            );
+
             if let Some(m) = best_line.first() {
                 println!("bestmove {}{}{}", m.origin(), m.destination(), {
                     if let Some(p) = m.promotion() {
@@ -313,13 +333,26 @@ impl Search {
             search_handle,
             write_handle,
             control,
+            #[cfg(weechess_verif)]
+            verif_search,
         }
     }
 
     pub fn wait_cancel(self) -> SearchArtifact {
+        #[cfg(weechess_verif)]
+        searcher::verif::thread_event("M_Stop", self.verif_search);
+
         _ = self.control.send(searcher::ControlEvent::Stop);
         let artifact = self.search_handle.join().unwrap();
+
+        #[cfg(weechess_verif)]
+        searcher::verif::thread_event("M_JoinC", self.verif_search);
+
         self.write_handle.join().unwrap();
+
+        #[cfg(weechess_verif)]
+        searcher::verif::thread_event("M_JoinW", self.verif_search);
+
         artifact
     }
 }
